@@ -129,6 +129,9 @@ func (b *backend) record(h int, meth string, ints []uint64, strs [][]byte, force
 	b.calls = append(b.calls, fmt.Sprintf("%d.%s(%s;%s)", h, meth, intsTok(ints), strsTok(strs)))
 	gate := b.gate
 	roll := b.r.intn(1000)
+	if meth == "WriteAt" || meth == "ReadAt" {
+		roll /= 3 // failing I/O (and what a failing call reports next to its error) is otherwise rare
+	}
 	var o outcome
 	doPanic := false
 	switch {
@@ -173,6 +176,20 @@ func (b *backend) intact(h int, meth string, now [][]byte, then [][]byte) {
 			return
 		}
 	}
+}
+
+// partial: how many bytes a failing ReadAt / WriteAt reports next to its error (half of the time none).
+func (b *backend) partial(p []byte, fill bool) int {
+	b.mu.Lock()
+	defer b.mu.Unlock()
+	if len(p) == 0 || b.r.chance(1, 2) {
+		return 0
+	}
+	n := 1 + b.r.intn(len(p))
+	if fill {
+		copy(p, b.r.bytesN(n))
+	}
+	return n
 }
 
 // randErr draws an error value: (kind tag, errno code if any, the error).
@@ -519,7 +536,8 @@ func (f *sfile) ReadAt(p []byte, offset int64) (int, error) {
 	b := f.b
 	o := b.record(f.id, "ReadAt", []uint64{uint64(len(p)), uint64(offset)}, nil)
 	if o.err != nil {
-		return 0, o.err
+		// like os.File: a failing read may have delivered some bytes first; the request still fails
+		return b.partial(p, true), o.err
 	}
 	b.mu.Lock()
 	n := len(p)
@@ -566,7 +584,8 @@ func (f *sfile) WriteAt(p []byte, offset int64) (int, error) {
 	o := b.record(f.id, "WriteAt", []uint64{uint64(offset)}, [][]byte{p})
 	b.intact(f.id, "WriteAt", [][]byte{p}, [][]byte{then})
 	if o.err != nil {
-		return 0, o.err
+		// like os.File: a failing write (ENOSPC) may have stored some bytes first; the request still fails
+		return b.partial(p, false), o.err
 	}
 	b.mu.Lock()
 	n := len(p)
